@@ -76,6 +76,10 @@ def create_lattice_elements(cell_centers: list, **kwargs) -> tuple:
 
                     vertex_number_2 = get_vertex_number(v1, new_vertices)
 
+                    if vertex_number_1 == vertex_number_2:
+                        # two corners that round to the same point: no edge of zero length
+                        continue
+
                     enum = get_enum([vertex_number_1, vertex_number_2], new_edges)
 
                     temp_big_edge.append(enum)
